@@ -50,7 +50,7 @@ Definition SIG_LDAP_ACCEPT := 5%N.
 Definition SIG_LDAP_REJECT := 6%N.
 Definition SIG_LDAP_UNGATED := 7%N.   (* modify/add/delete/modifyDN/compare succeeded without a login *)
 Definition SIG_LDAP_EVENT := 8%N.
-Definition SIG_LDAP_OLDVER_EVENT := 14%N.  (* bind with version < 2: the event lacks the name/password presented *)
+Definition SIG_LDAP_OLDVER_EVENT := 14%N.  (* bind with version < 2: the event lacks the name/password presented (repaired in /repo; kept to report a regression) *)
 Definition SIG_FTP_ACCEPT := 9%N.
 Definition SIG_FTP_REJECT := 10%N.
 Definition SIG_FTP_UNGATED := 11%N.   (* a file/directory command was not refused before login *)
@@ -118,7 +118,10 @@ Definition reply_ok (r : lreply) : bool :=
 Definition levent_bind_ok (dn pw : str) (e : levent) : bool :=
   (le_type e =? T_BIND)%N && ostr_eqb (le_user e) (Some (norm_dn dn)) && ostr_eqb (le_pw e) (Some pw).
 
-(* logged: an earlier bind of this connection was observed to succeed with a non-empty name *)
+(* logged: an earlier bind of this connection was observed to succeed with a non-empty name.
+   Every simple bind, whatever its protocol version, must leave an event with the evaluated
+   name and the presented password (a version < 2 bind that does not: the former defect, kept
+   under its own signature). *)
 Fixpoint ldap_sig_walk (creds : list str) (logged : bool) (reqs : list lreq)
          (rps : list lreply) (evs : list levent) : N :=
   match reqs, rps, evs with
@@ -126,18 +129,20 @@ Fixpoint ldap_sig_walk (creds : list str) (logged : bool) (reqs : list lreq)
   | r :: reqs', rp :: rps', ev :: evs' =>
       match r with
       | LBind ver dn pw =>
-          if ver <? 2 then
-            (* refused as a protocol error, whatever the credentials; any other failure later in
-               the case is reported first *)
-            orsig (ldap_sig_walk creds logged reqs' rps' evs')
-                  (if levent_bind_ok dn pw ev then 0%N else SIG_LDAP_OLDVER_EVENT)
-          else
-            let ok := reply_ok rp in
-            let s := ldap_spec creds dn pw in
-            if ok && negb s then SIG_LDAP_ACCEPT
-            else if negb ok && s then SIG_LDAP_REJECT
-            else if negb (levent_bind_ok dn pw ev) then SIG_LDAP_EVENT
-            else ldap_sig_walk creds (logged || (ok && negb (is_nil (norm_dn dn)))) reqs' rps' evs'
+          let ok := reply_ok rp in
+          let s := ldap_spec creds dn pw in
+          if ok && negb s then SIG_LDAP_ACCEPT
+          else if (2 <=? ver) && negb ok && s then SIG_LDAP_REJECT
+          else if negb (levent_bind_ok dn pw ev)
+            then (if ver <? 2 then SIG_LDAP_OLDVER_EVENT else SIG_LDAP_EVENT)
+          else ldap_sig_walk creds (logged || (ok && negb (is_nil (norm_dn dn)))) reqs' rps' evs'
+      | LBindShort _ | LBindBadName _ =>
+          if negb (le_type ev =? T_BIND)%N then SIG_LDAP_EVENT
+          else ldap_sig_walk creds logged reqs' rps' evs'
+      | LBindOther _ dn =>     (* no password is presented; the evaluated name is recorded *)
+          if negb ((le_type ev =? T_BIND)%N && ostr_eqb (le_user ev) (Some (norm_dn dn)))
+            then SIG_LDAP_EVENT
+          else ldap_sig_walk creds logged reqs' rps' evs'
       | LOp tag =>
           if ldap_gated tag && reply_ok rp && negb logged then SIG_LDAP_UNGATED
           else ldap_sig_walk creds logged reqs' rps' evs'
